@@ -487,6 +487,30 @@ def neutral_prefix(prefix, cls):
     return prefix.replace('/escape=true', '/escape=any').replace('/escape=false', '/escape=any')
 
 
+def keys_collide_after_unescaping(spec):
+    """some map of the value has two distinct keys that become equal when backslash sequences inside the key
+    TEXT are (wrongly) interpreted once more, e.g. 'é' and the six characters '\\u00e9'"""
+    import re as _re
+
+    def unesc(k):
+        k = _re.sub(r'\\u([0-9a-fA-F]{4})', lambda m: chr(int(m.group(1), 16)), k)
+        return k.replace('\\\\', '\\')
+
+    def walk(v):
+        if not isinstance(v, list) or not v:
+            return False
+        if v[0] == 'm':
+            keys = [k for k, _ in v[1]]
+            un = [unesc(k) for k in keys]
+            if len(set(un)) < len(set(keys)):
+                return True
+            return any(walk(x) for _, x in v[1])
+        if v[0] == 'a':
+            return any(walk(x) for x in v[1])
+        return False
+    return walk(spec)
+
+
 def run_isolated(spec, problems, pipeline, out, prefix, group=None):
     """emit one failure per failing ingredient; fall back to the whole-value classification"""
     emitted = set()
@@ -517,7 +541,11 @@ def run_isolated(spec, problems, pipeline, out, prefix, group=None):
             symptoms.update(sym for sym, _, _ in sub)
     if not emitted:
         for sym, c, detail in problems:
-            key = '%s/%s/combination/%s' % (prefix, sym, grouped(c.split('+')[0], group) if c else 'unclassified')
+            cls = grouped(c.split('+')[0], group) if c else 'unclassified'
+            if c is None and 'FOJS0006' in sym and keys_collide_after_unescaping(spec):
+                # two distinct keys, one of them with a literal backslash: only their combination fails
+                cls = 'keys-differing-by-an-escaped-backslash-taken-for-duplicates'
+            key = '%s/%s/combination/%s' % (prefix, sym, cls)
             if key not in emitted:
                 emitted.add(key)
                 out.fail(key, detail)
